@@ -72,7 +72,7 @@ pub fn check_even(stats: &mut Stats, w: &Cub, class: &str, distance: f64, max_er
     if let Some((i, ch)) = off.first() {
         let worst = off.iter().fold(0.0f64, |m, (_, ch)| m.max((ch - distance).abs()));
         let place = if *i + 2 == secs.len() { "last_but_one_section" } else if *i == 0 { "first_section" } else { "inner_section" };
-        let hk = if class == "hook" { format!(".input_{:016x}", fnv(&format!("{} {:?} {:?}", fmt_cub(w), distance, max_error))) } else { String::new() };
+        let hk = if class == "hook" || class == "loop" { format!(".input_{:016x}", fnv(&format!("{} {:?} {:?}", fmt_cub(w), distance, max_error))) } else { String::new() };
         stats.fail("C15", &format!("walk_even.chord_off_distance.{}.{}{}", class, place, hk), &format!("{} {} of {} sections off; first: section {} = {:?} has chord {:?} (|chord-distance|={:e}); worst deviation {:e}", desc, off.len(), body.len(), i, secs[*i], ch, (ch - distance).abs(), worst));
     }
 }
